@@ -7,6 +7,9 @@ verus! {
 // std::time::Duration, whole seconds only (the code only uses from_secs / as_secs / `* 2` / min)
 #[derive(Clone, Copy)]
 pub struct Duration { pub secs: u64 }
+// comparisons between Durations (std PartialOrd): no spec is given here - code that branches on one is verified for both outcomes
+impl PartialEq for Duration { #[verifier::external_body] fn eq(&self, other: &Self) -> (r: bool) { unimplemented!() } }
+impl PartialOrd for Duration { #[verifier::external_body] fn partial_cmp(&self, other: &Self) -> (r: Option<core::cmp::Ordering>) { unimplemented!() } }
 impl Duration {
     pub const fn from_secs(secs: u64) -> (r: Duration) ensures r.secs == secs { Duration { secs } }
     pub fn as_secs(&self) -> (r: u64) ensures r == self.secs { self.secs }
@@ -72,6 +75,29 @@ impl Loop {
             // ... and the back-off grows with each consecutive failure until it reaches that bound
             outcome is Err ==> res.secs >= backoff.secs,                                                // OBL:C19.backoff.grows
             outcome is Err && backoff.secs < cap(self.period.secs) ==> res.secs > backoff.secs,        // OBL:C19.backoff.grows_strictly_below_cap
+//@end
+}
+
+// ---------- the signal arms of the select loop ----------
+impl Loop {
+//@extract id=loop_on_sighup file=junos-agent/src/task.rs impl=/Loop<T>/ fn=start block=/_ = sighup\.recv\(\) =>/ rules=R2,R3,R17 contret=1
+//@sig pub fn on_sighup(&self, interval: &mut Interval, backoff: Duration)
+//@contract
+        // C19: SIGHUP triggers an immediate run - whatever state the back-off is in
+        ensures final(interval).next_delay@ == 0, final(interval).period@ == old(interval).period@,     // OBL:C19.sighup.triggers_an_immediate_run
+//@end
+//@extract id=loop_on_sigint file=junos-agent/src/task.rs impl=/Loop<T>/ fn=start block=/_ = sigint\.recv\(\) =>/ rules=R2,R3,R17 contret=1
+//@+ sub=/break Ok(())=>return Ok(())/
+//@sig pub fn on_sigint(&self, interval: &mut Interval, backoff: Duration) -> (res: Result<(), AnyhowError>)
+//@contract
+        // C19: SIGINT makes the daemon exit cleanly
+        ensures res is Ok,                                                                              // OBL:C19.sigint.clean_exit
+//@end
+//@extract id=loop_on_sigterm file=junos-agent/src/task.rs impl=/Loop<T>/ fn=start block=/_ = sigterm\.recv\(\) =>/ rules=R2,R3,R17 contret=1
+//@+ sub=/break Ok(())=>return Ok(())/
+//@sig pub fn on_sigterm(&self, interval: &mut Interval, backoff: Duration) -> (res: Result<(), AnyhowError>)
+//@contract
+        ensures res is Ok,                                                                              // OBL:C19.sigterm.clean_exit
 //@end
 }
 
